@@ -35,7 +35,7 @@ def commands(name):
 
 
 def applies(cmd, fi, f):
-    return cmd == 'abidw' or (cmd == 'abidiff-dmg-intact' and fi % 6 == 0) or (cmd == 'abisym' and fi % 6 == 3)
+    return cmd == 'abidw' or (cmd == 'abidiff-dmg-intact' and fi % 8 == 0) or (cmd == 'abisym' and fi % 8 == 4)
 
 
 def command(ctx, it, cmd, dmg):
